@@ -14,7 +14,7 @@ from vf.props.c03 import ATTRS
 
 F_D = ["rich/ansi.py:AnsiDecoder.decode", "rich/ansi.py:AnsiDecoder.decode_line", "rich/ansi.py:_ansi_tokenize", "rich/ansi.py:SGR_STYLE_MAP",
        "rich/style.py:Style.render", "rich/console.py:Console._render_buffer"]
-COLORS = [None, Color.default(), Color.parse("red"), Color.parse("bright_blue"), Color.parse("color(100)"),
+COLORS = [None, Color.default(), Color.parse("red"), Color.parse("bright_blue"), Color.parse("bright_black"), Color.parse("color(100)"),
           Color.from_rgb(1, 2, 3), Color.from_rgb(128, 128, 128)]
 
 
